@@ -92,7 +92,9 @@ CLAIMED["C12"] = dict(
    text="Theorems (coq/props/C12.v): for EVERY byte stream and EVERY storage behaviour (panics included) all request tokens taken are returned "
         "(C12_tokens_returned); every command on which the storage client honours the buffer hand-over contract leaves SetData and GetData exactly "
         "unchanged (C12_balance_partial, with the executable predicate `clean`); the unrestricted balance is REFUTED for the code as it stands "
-        "(C12_leaks_refuted, known findings F6-F8). The accounting model (ghost counters threaded through the protocol model) predicts the exact "
+        "(C12_leaks_refuted, known findings F6-F8); a further leak found by the machinery -- a repeated key in a multi-get (F23) -- is refuted for the "
+        "code before the repair (C12_repeated_key_refuted) and repaired by a fix: commit, the model being parameterised by the translated flag "
+        "getmulti_skips_duplicates. The accounting model (ghost counters threaded through the protocol model) predicts the exact "
         "residue of every stream, leaks included, and is compared with cmem.DBRL and the token channel after flush + idle on every case.",
    note="PARTIAL: FlushData/AllocRL are compared (expected zero unless a recorded leak carries a C allocation) but not modelled; concurrent "
         "connections and counter races are not modelled. Trusted: Coq kernel, harness, python oracle. No axioms.",
